@@ -191,6 +191,11 @@ def judge(kind: str, payload: bytes):
     if lib[0] != "ok":
         prob("defined-rejected", f"a payload whose every field is defined was rejected: {lib[1]!r}")
         return ("defined", probs)
+    sub_ = getattr(lib[1], "sub_message", lib[1])
+    if type(sub_).__name__ == k["req"]:
+        prob("status-read-as-request", f"the payload is a status report ({len(recs) if recs is not None else 1} record(s)) but was decoded "
+                                       f"as the request {type(sub_).__name__}: {payload.hex()[:80]}")
+        return ("defined", probs)
     try:
         got = k["view"](lib[1])
     except Exception as exc:  # noqa: BLE001
